@@ -28,9 +28,7 @@ func init() {
 	extend("C01", "(R1.7) every replica base handed to CalculateBatchReplicas / ParseIntegerAsPercentageIfPossible is the workload's spec size, never an observed status count (the workload controller evaluates percentages against spec.replicas); (R1.8) the partition-style Deployment Initialize writes a strategy whose partition is the constant zero on every path — a new release never inherits the partition of an earlier one.", extraC01)
 	imp := func(id, from string, mapping map[string]string, expl string) {
 		extend(id, expl, func(c *Ctx) {
-			t := NewCtx(c.Prog, from, c.Tier, c.OutDir)
-			Registry[from].Run(t)
-			c.Import(t, mapping, " (= "+from+"'s rule, a necessary condition of this property too)")
+			importFrom(c, from, mapping)
 		})
 	}
 	imp("C03", "C13", map[string]string{"R13.3": "R3.3g"}, "(R3.3g = C13 R13.3) the Gateway provider's desired/current comparison is not vacuous: the backendRef helpers never alias or edit in place the route object that was read — otherwise a changed weight is 'verified' without ever being written.")
@@ -1095,4 +1093,20 @@ func extraC03(c *Ctx) {
 		}
 		c.Ob("R3.5", name+"#weight", 0, found && bad == "", "the weight annotation is assigned obj.weight itself", ifs(!found, "no weight annotation assignment found; ")+bad)
 	}
+}
+
+// importDepth > 0 while a property's rule set is being run as the *source* of an import: the
+// source's own imports are then skipped (an imported clause is always one of the source's own
+// rules), which also keeps mutually importing properties from recursing.
+var importDepth int
+
+func importFrom(c *Ctx, from string, mapping map[string]string) {
+	if importDepth > 0 {
+		return
+	}
+	importDepth++
+	defer func() { importDepth-- }()
+	t := NewCtx(c.Prog, from, c.Tier, c.OutDir)
+	Registry[from].Run(t)
+	c.Import(t, mapping, " (= "+from+"'s rule, a necessary condition of this property too)")
 }
